@@ -41,6 +41,12 @@ def run(c, job):
             return
         vals = tuple(getattr(comps[cn], a, "<missing>") for cn, a, _ in attrs)
         H.log.add("read", site, vals)
+        j = comps["c2"].__dict__.get("journal")
+        if j is not None:
+            # assignments seen by c2's own __setattr__ hook since the first observation: only the ones made here
+            if state.get("j0") is None:
+                state["j0"] = len(j)
+            H.log.add("journal", site, len(j) - state["j0"], state.get("c2_sets", 0))
         if site in WRITERS:
             key = H.env.k  # refresh counter identifies the iteration
             if state["wkey"] != key:
@@ -50,11 +56,14 @@ def run(c, job):
                 tok = c.real(f"tok{key}_{site}", -1000, 1000)  # any value, including the declared default
                 for cn, a, _ in attrs:
                     setattr(comps[cn], a, tok)
+                    if cn == "c2" and state.get("j0") is not None:
+                        state["c2_sets"] = state.get("c2_sets", 0) + 1
                 H.log.add("write", site, tok)
 
     def pre_start(h, r):
         nonlocal H
         H = h
+        h.marker_attrs = [(cn, a, d) for cn, a, d in MARKED[layout]]
         for s in ["robot.teleopPeriodic", "robot.disabledPeriodic", "robot.testPeriodic", "robot.robotPeriodic",
                   "auto.on_iteration", "c1.execute", "c2.execute", "c3.execute", "c1.fb_probe", "c2.fb_probe"]:
             h.hooks[s] = hook
@@ -72,6 +81,12 @@ def run(c, job):
 
 def clauses(c, H, attrs):
     pre, segs = lcm.parse(H.log)
+    for e in H.log.ev:
+        if e[0] == "setup_markers":
+            c.reach("setup-sees-markers")
+            for cn, a, v, d in e[2]:
+                same = (v is d) if isinstance(d, lcm._NoTarget) else (not isinstance(v, lcm._NoTarget) and s_eq(v, d))
+                c.prove("C10.reset starts-at-declared-default-before-any-setup", same, info=dict(seen_by=e[1], attr=f"{cn}.{a}", got=str(v)[:60]))
     nmarked = len(attrs) - len(PLAIN)
     cur = [d for _, _, d in attrs]
     for sg in segs:
@@ -89,6 +104,10 @@ def clauses(c, H, attrs):
                 elif e[0] == "write":
                     c.reach("write")
                     cur = [e[2]] * len(attrs)
+                elif e[0] == "journal":
+                    c.reach("journal")
+                    c.prove("C10.untouched reset-does-not-go-through-attribute-assignment", e[2] == e[3],
+                            info=dict(site=e[1], assignments_seen_by_setattr_hook=e[2], made_by_user_code=e[3]))
             if enabled_iter:
                 # after the iteration every marked attribute is back at its default
                 for j in range(nmarked):
@@ -112,7 +131,7 @@ class C10(LoopSpec):
                 mkjob("R1", 2, True, fms=True, faults=2, fault_patterns=["always"], fault_sites=fs[:4])]
 
     def reach_required(self, tier):
-        return ["read", "write", "read-sees-same-iteration-write", "enabled-iteration-end"]
+        return ["read", "write", "read-sees-same-iteration-write", "enabled-iteration-end", "journal", "setup-sees-markers"]
 
     def path_fn(self, c, job):
         H, attrs = run(c, job)
